@@ -2,6 +2,7 @@
    in-flight lists, when the generation changes, what a fresh / resumed CONNACK does, the order of the lists. *)
 From Coq Require Import Arith ZArith Lia ZifyBool ZifyN ZifyNat.
 From Minimq Require Import Util Bytes Varint Utf8 Props Ser De Reader Arena Core.
+From Minimq Require Import PacketShape.
 From Minimq Require Import ArenaLemmas SerLemmas ArenaOps Inv Lts.
 
 (* ---------- C18: status ---------- *)
@@ -54,7 +55,9 @@ Proof.
     { intros. unfold queue_ctl_checked. destruct (check_control_size _ _); [reflexivity|]. destruct (queue_control _ _); reflexivity. }
     destruct p; cbn [handle_packet]; try reflexivity.
     + destruct q; [reflexivity| |]; destruct pid; try reflexivity; try apply Hq.
-      destruct (mem_id _ _); [apply Hq|]. destruct (_ <=? _); [apply Hq|]. now rewrite Hq.
+      match goal with |- context [queue_ctl_checked s ?a ?dl] =>
+        pose proof (Hq s a dl) as Hq2; destruct (queue_ctl_checked s a dl) as [s1 hr] end.
+      cbn [fst] in Hq2 |- *. destruct hr; [destruct (_ || _)|]; exact Hq2.
     + destruct (ack_packet _ _) as [o f]. destruct f; cbn [negb]; [|reflexivity]. destruct (rc_success _); reflexivity.
     + destruct (ack_packet _ _) as [o f]. destruct f.
       * destruct (negb _); [reflexivity|]. destruct (check_pubrel_size _ _ _); [reflexivity|]. destruct (queue_release _ _ _); reflexivity.
@@ -104,7 +107,7 @@ Proof.
     { intros. unfold queue_ctl_checked. destruct (check_control_size _ _); [reflexivity|]. destruct (queue_control _ _); reflexivity. }
     destruct p; cbn [handle_packet]; try exact Hs.
     + destruct q; [exact Hs| |]; destruct pid; try exact Hs; try (now rewrite Hq).
-      destruct (mem_id _ _); [now rewrite Hq|]. destruct (_ <=? _); now rewrite Hq.
+      q2_split; now rewrite Hq.
     + destruct (ack_packet _ _) as [o f]. destruct f; cbn [negb]; [|exact Hs]. destruct (rc_success _); exact Hs.
     + destruct (ack_packet _ _) as [o f]. destruct f.
       * destruct (negb _); [exact Hs|]. destruct (check_pubrel_size _ _ _); [exact Hs|]. destruct (queue_release _ _ _); exact Hs.
